@@ -724,6 +724,15 @@ func (k *Checker) checkWire(n *Node, pre, post *raft.VerifState, ctx *callCtx) {
 				k.report("C06", "cm.hb_clamp", n, fmt.Sprintf("heartbeat to %d carries commit %d beyond its match index %d", m.GetTo(), m.GetCommit(), pr.Match), "")
 				return
 			}
+		case pb.MsgVote, pb.MsgPreVote:
+			// C02: votes are granted on the strength of the candidate's claim about
+			// its last entry; the claim must not exceed what its log holds
+			k.count("el.claim")
+			lt, li := x.lastID()
+			if m.GetLogTerm() > lt || (m.GetLogTerm() == lt && m.GetIndex() > li) {
+				k.report("C02", "el.up_to_date", n, fmt.Sprintf("%s to %d claims a last entry (term=%d, index=%d) beyond the sender's actual last entry (term=%d, index=%d)", m.GetType(), m.GetTo(), m.GetLogTerm(), m.GetIndex(), lt, li), "el.claim")
+				return
+			}
 		case pb.MsgApp:
 			k.checkMsgApp(n, x, pre, post, m)
 		case pb.MsgSnap:
@@ -764,8 +773,14 @@ func (k *Checker) checkMsgApp(n *Node, x *nodeChk, pre, post *raft.VerifState, m
 			return
 		}
 	}
-	// C03 on the wire: the slice is contiguous, terms non-decreasing and <= the sender's term.
+	// C03 on the wire: the slice is contiguous, terms non-decreasing and <= the sender's term,
+	// and it is anchored at an entry the sender's log holds (the receiver appends
+	// the entries to its log on the strength of that anchor).
 	k.count("log.wire")
+	if t, ok := x.termAt(m.GetIndex()); ok && t != m.GetLogTerm() {
+		k.report("C03", "log.wire", n, fmt.Sprintf("MsgApp to %d is anchored at (index=%d, term=%d) but the sender's log holds term %d at that index", m.GetTo(), m.GetIndex(), m.GetLogTerm(), t), "log.wire.anchor")
+		return
+	}
 	pt := m.GetLogTerm()
 	for i, e := range ents {
 		if e.GetIndex() != m.GetIndex()+1+uint64(i) || e.GetTerm() < pt || e.GetTerm() > post.Term {
